@@ -14,6 +14,8 @@ void with_shape(const std::string &shape, F &&f)
     else if (shape == "dd") f.template operator()<S_DD>();
     else if (shape == "bb") f.template operator()<S_BB>();
     else if (shape == "bl") f.template operator()<S_BL>();
+    else if (shape == "tss32") f.template operator()<S_TSS32>();
+    else if (shape == "tsd32") f.template operator()<S_TSD32>();
     else throw std::runtime_error("unknown shape " + shape);
 }
 
